@@ -152,6 +152,22 @@ impl Prop for C04 {
                 f(Case::s(format!("+--+\n|  |\n+--+\n{}", d)));
             }
         }));
+        v.push(Scope::new("scalar-then-label", "every scalar from U+00A1 to U+3100 that is not white space or a control, the first and last scalar of every later 256-block, as '<c> ab' and 'ab <c> ab': the labels after it must sit in the cells their display columns say (a double-width character takes two cells wherever its code point lies)", |f| {
+            let mut cs: Vec<char> = (0xA1u32..0x3100).filter_map(char::from_u32).collect();
+            let mut b = 0x3100u32;
+            while b <= 0x2FFFF {
+                cs.extend(char::from_u32(b));
+                cs.extend(char::from_u32(b + 0xFF));
+                b += 0x100;
+            }
+            for c in cs {
+                if c.is_whitespace() || c.is_control() {
+                    continue;
+                }
+                f(Case::s(format!("{} ab", c)));
+                f(Case::s(format!("ab {} ab", c)));
+            }
+        }));
         v.push(Scope::new("two-text-rows", "all pairs of rows over {a,b,space} up to length 4, directly above each other (labels of adjacent rows must not be joined)", |f| {
             let mut rows: Vec<String> = vec![];
             enumr::strings_upto(&['a', 'b', ' '], 4, &mut |s| rows.push(s.iter().collect()));
@@ -260,6 +276,6 @@ impl Prop for C04 {
             cx.outcome(&lens);
         }
         // in the shape scopes other drawing characters may legitimately be shown as text (an isolated '.')
-        check_texts(cx, &case.s, &d, scope != "labels-near-shapes" && scope != "markup-as-text");
+        check_texts(cx, &case.s, &d, scope != "labels-near-shapes" && scope != "markup-as-text" && scope != "scalar-then-label");
     }
 }
